@@ -46,6 +46,8 @@ def node_text(kind: str, eol: str, ind: int) -> str:
     if kind == "paren":
         return "f(1)"
     head = {"deco": "@d", "decosp": "@ d", "decoparen": "@(d)", "decocall": "@d(1)", "cls": "@d"}.get(kind)
+    if kind == "decoasync":
+        return f"@d{e}{pad}async def g():{e}{pad}    pass"
     if kind == "deco2":
         return f"@d{e}{pad}@e{e}{pad}def g():{e}{pad}    pass"
     if kind == "cls":
@@ -76,13 +78,16 @@ def pattern_for(kind: str):
         return "f({{x}})", "f({{x}})"
     if kind == "cls":
         return ast.ClassDef, None
+    if kind == "decoasync":
+        return ast.AsyncFunctionDef, None
     return ast.FunctionDef, None
 
 
 def cpython_segment(text: str, kind: str) -> Optional[str]:
     """The complete text of the node according to CPython."""
     tree = ast.parse(text)
-    want = ast.ClassDef if kind == "cls" else ast.Call if kind in ("call", "ucall", "multi", "paren") else ast.FunctionDef
+    want = (ast.ClassDef if kind == "cls" else ast.Call if kind in ("call", "ucall", "multi", "paren") else
+            ast.AsyncFunctionDef if kind == "decoasync" else ast.FunctionDef)
     nodes = [n for n in ast.walk(tree) if isinstance(n, want) and (not isinstance(n, ast.Call) or getattr(n.func, "id", "") == "f")]
     if len(nodes) != 1:
         return None
@@ -197,7 +202,7 @@ def _layout_chunk(args):
 
 
 # ---------------------------------------------------------------------------------------------
-STMT = {"callf": "f(1)", "callg": "g(2)", "assignf": "x = f(3)", "def": "def h():\n    f(4)", "deco": "@d\ndef k():\n    pass"}
+STMT = {"binf": "f(5) + 2", "callf": "f(1)", "callg": "g(2)", "assignf": "x = f(3)", "def": "def h():\n    f(4)", "deco": "@d\ndef k():\n    pass"}
 PAT = {"callf": "f({{x}})", "assign": "{{a}} = {{b}}", "funcdef": ast.FunctionDef, "seq": "f({{x}})\ng({{y}})", "absent": "q({{x}})"}
 
 
@@ -271,16 +276,16 @@ def main(argv=None) -> int:
     rng = random.Random(seed())
     stats: Dict[str, int] = {}
     known = rep.known_entries()
-    api_consts = ['  StmtKinds = {"callf", "callg", "assignf", "def", "deco"}', '  PatKinds = {"callf", "assign", "funcdef", "seq", "absent"}',
+    api_consts = ['  StmtKinds = {"callf", "callg", "assignf", "def", "deco", "binf"}', '  PatKinds = {"callf", "assign", "funcdef", "seq", "absent"}',
                   f"  MaxStmts = {3 if t == 'quick' else 4}"]
     if t == "quick":
         geo = ['  Specials = {"none", "u2", "u4", "ff", "ls", "nel"}', '  Eols = {"lf", "crlf", "cr"}', '  FinalEols = {"lf", "crlf", "cr", "none"}',
-               '  NodeKinds = {"call", "ucall", "multi", "paren", "deco", "decosp", "decoparen", "decocall", "deco2", "cls"}',
+               '  NodeKinds = {"call", "ucall", "multi", "paren", "deco", "decosp", "decoparen", "decocall", "deco2", "cls", "decoasync"}',
                "  MaxFillers = 1", "  Indents = {0, 4}"]
     else:
         geo = ['  Specials = {"none", "u2", "u3", "u4", "ff", "vt", "fs", "nel", "ls", "ps"}', '  Eols = {"lf", "crlf", "cr"}',
                '  FinalEols = {"lf", "crlf", "cr", "none"}',
-               '  NodeKinds = {"call", "ucall", "multi", "paren", "deco", "decosp", "decoparen", "decocall", "deco2", "cls"}',
+               '  NodeKinds = {"call", "ucall", "multi", "paren", "deco", "decosp", "decoparen", "decocall", "deco2", "cls", "decoasync"}',
                "  MaxFillers = 2", "  Indents = {0, 4}"]
     cfg = "\n".join(["CONSTANTS", *geo, *api_consts, "INIT Init", "NEXT Next", "INVARIANT Dump", "INVARIANT AlgorithmRight", "CHECK_DEADLOCK FALSE", ""])
     res = run_tlc("Geometry", cfg, timeout_s=3000, keep_stdout=False, heap_gb=12)
